@@ -59,7 +59,14 @@ pub fn line_text(form: &Form, vals: &[i64], rng: &mut Rng) -> String {
         }
         match form.ops[i] {
             Opk::Reg { .. } => s.push_str(&spell::reg(*v, rng)),
-            Opk::Imm { .. } | Opk::ImmCom { .. } | Opk::Addr8l { .. } => s.push_str(&spell::num(*v, rng)),
+            Opk::Imm { .. } | Opk::ImmCom { .. } | Opk::Addr8l { .. } => {
+                // one number in twelve is written as the character that has this code (controls, blanks and
+                // Latin-1 included - a character literal is a number like any other)
+                match char::from_u32(*v as u32) {
+                    Some(c) if *v >= 1 && *v <= 255 && c != '\n' && c != '\r' && c != '\'' && rng.chance(1, 12) => s.push_str(&format!("'{}'", c)),
+                    _ => s.push_str(&spell::num(*v, rng)),
+                }
+            }
             Opk::Rel { .. } => {
                 let t = *v + 1;
                 let pc = spell::case("pc", rng);
@@ -74,7 +81,10 @@ pub fn line_text(form: &Form, vals: &[i64], rng: &mut Rng) -> String {
             Opk::Disp { reg, .. } => {
                 s.push_str(&spell::case(&reg.to_string(), rng));
                 s.push('+');
-                s.push_str(&spell::num(*v, rng));
+                match char::from_u32(*v as u32) {
+                    Some(c) if *v >= 1 && c != '\n' && c != '\r' && c != '\'' && rng.chance(1, 12) => s.push_str(&format!("'{}'", c)),
+                    _ => s.push_str(&spell::num(*v, rng)),
+                }
             }
         }
     }
@@ -552,7 +562,7 @@ pub fn run(ctx: &Ctx) -> i32 {
     crate::refmodel::llvm::crosscheck(ctx, ctx.tier == Tier::Thorough);
     fw::finish(
         ctx,
-        "every ISA-legal operand tuple of every supported instruction form is assembled (batches of 4096 lines, random radix/case/blank spelling; every fourth batch as a file with blank lines in front, LF or CRLF and no final line end) and compared byte-for-byte with the reference encoder and re-decoded by an independent decoder; plus a high-address slice (48 tuples per form behind .org 0x12345) an interleaving slice (3000 single-line builds on one thread alternating between the reduced core, no device and random forms) a last-word slice (every form in the last one or two words of the flash of the smallest and the largest part that has it) and an operand-path slice (8 tuples per form written through .def aliases, .equ/.set symbols and macro arguments, the macro arguments also as computed expressions with right-grouped operands, half of them behind a `.db` string whose byte count differs from its character count or that holds backslash sequences); `exhaustive` refers to the spaces listed under complete_spaces; distinct_nontrivial = distinct first instruction words emitted (bitmap over 65536)",
+        "every ISA-legal operand tuple of every supported instruction form is assembled (batches of 4096 lines, random radix/case/blank spelling, one number in twelve as the character literal with that code; every fourth batch as a file with blank lines in front, LF or CRLF and no final line end) and compared byte-for-byte with the reference encoder and re-decoded by an independent decoder; plus a high-address slice (48 tuples per form behind .org 0x12345) an interleaving slice (3000 single-line builds on one thread alternating between the reduced core, no device and random forms) a last-word slice (every form in the last one or two words of the flash of the smallest and the largest part that has it) and an operand-path slice (8 tuples per form written through .def aliases, .equ/.set symbols and macro arguments, the macro arguments also as computed expressions with right-grouped operands, half of them behind a `.db` string whose byte count differs from its character count or that holds backslash sequences); `exhaustive` refers to the spaces listed under complete_spaces; distinct_nontrivial = distinct first instruction words emitted (bitmap over 65536)",
         &[
             "refmodel/isa.rs is a faithful transcription of the AVR Instruction Set Manual (self-checked decode∘encode, cross-checked against llvm-mc-14 where available)",
             "relative operands are written as pc±k at word address 4096; label-based targets belong to C03",
